@@ -4,7 +4,10 @@
 // PRNG answers - and the *history* of the objects involved, including
 // operations that fail half-way. Every successful operation of a history is
 // compared with the same call on fresh objects in the reference environment.
+#include <signal.h>
+#include <sys/prctl.h>
 #include <sys/syscall.h>
+#include <sys/wait.h>
 #include <sys/time.h>
 #include <time.h>
 #include <unistd.h>
@@ -892,9 +895,87 @@ std::string OpSig(const EnvPlan &p, const Materials &m, const Op &op) {
 
 // Executes the plan: reference model op by op, then the whole history under
 // each environment. Returns the event-log hash; findings are appended.
+// Process isolation (builds without ASan): the plan runs in a child of the
+// worker, its input streams are encoded in a helper child, and every reference
+// op runs in a child of its own, so that each reference is the FIRST codec call
+// of its process. State that an earlier call leaves behind in the process (a
+// guarded static initialised from the first caller's arguments, a memo keyed too
+// coarsely) then differs between the history and the reference instead of
+// cancelling out.
+bool EnvReadAll(int fd, std::string *out) {
+  char buf[65536];
+  for (;;) {
+    const ssize_t n = read(fd, buf, sizeof(buf));
+    if (n < 0 && errno == EINTR) continue;
+    if (n <= 0) return true;
+    out->append(buf, static_cast<size_t>(n));
+  }
+}
+void EnvWriteAll(int fd, const void *data, size_t size) {
+  const char *p = static_cast<const char *>(data);
+  while (size) {
+    const ssize_t n = write(fd, p, size);
+    if (n < 0 && errno == EINTR) continue;
+    if (n <= 0) return;
+    p += n;
+    size -= static_cast<size_t>(n);
+  }
+}
+// A child died: die the same way, so that whoever watches this process (in the
+// end the pool, which classifies deaths from the common stderr log) sees it.
+[[noreturn]] void EnvDieLike(int status) {
+  fflush(nullptr);
+  if (WIFSIGNALED(status)) {
+    signal(WTERMSIG(status), SIG_DFL);
+    raise(WTERMSIG(status));
+    _exit(128 + WTERMSIG(status));
+  }
+  _exit(WEXITSTATUS(status) ? WEXITSTATUS(status) : 70);
+}
+
+bool MaterialiseStreamsInChild(const EnvPlan &p, const std::string &repo,
+                               std::vector<std::vector<uint8_t>> *streams) {
+  int fd[2];
+  if (pipe(fd) != 0) abort();
+  fflush(nullptr);
+  const pid_t pid = fork();
+  if (pid == 0) {
+    prctl(PR_SET_PDEATHSIG, SIGKILL);
+    close(fd[0]);
+    Materials mm;
+    std::string blob;
+    if (Materialise(p, repo, &mm)) {
+      for (const std::vector<uint8_t> &b : mm.streams) {
+        const uint64_t n = b.size();
+        blob.append(reinterpret_cast<const char *>(&n), 8);
+        blob.append(reinterpret_cast<const char *>(b.data()), b.size());
+      }
+    }
+    EnvWriteAll(fd[1], blob.data(), blob.size());
+    _exit(0);
+  }
+  close(fd[1]);
+  std::string blob;
+  EnvReadAll(fd[0], &blob);
+  close(fd[0]);
+  int status = 0;
+  waitpid(pid, &status, 0);
+  if (!WIFEXITED(status) || WEXITSTATUS(status) != 0) EnvDieLike(status);
+  size_t pos = 0;
+  while (pos + 8 <= blob.size()) {
+    uint64_t n;
+    memcpy(&n, blob.data() + pos, 8);
+    pos += 8;
+    if (pos + n > blob.size()) return false;
+    streams->emplace_back(blob.begin() + pos, blob.begin() + pos + n);
+    pos += n;
+  }
+  return !streams->empty();
+}
+
 uint64_t RunPlan(const EnvPlan &p, const std::string &repo,
                  std::vector<Finding> *findings, Json *trace, uint64_t *n_calls,
-                 uint64_t *reused_ops, bool *abandoned) {
+                 uint64_t *reused_ops, bool *abandoned, bool cold_refs = false) {
   *abandoned = false;
   Materials m;
   Hasher log;
@@ -905,10 +986,23 @@ uint64_t RunPlan(const EnvPlan &p, const std::string &repo,
   mc.fill_mode = 1;
   mc.pad = false;
   mc.ascending = AllocArenaEverywhere();
-  AllocBegin(mc);
-  ScribbleStack(0, true);
-  const bool have_materials = Materialise(p, repo, &m);
-  AllocEnd(false);
+  bool have_materials;
+  if (cold_refs) {
+    have_materials = MaterialiseStreamsInChild(p, repo, &m.streams);
+    AllocBegin(mc);
+    ScribbleStack(0, true);
+    for (const Workload &w : p.geoms) {
+      std::unique_ptr<draco::PointCloud> g = BuildGeometry(w);
+      if (!g) have_materials = false;
+      m.geoms.push_back(std::move(g));
+    }
+    AllocEnd(false);
+  } else {
+    AllocBegin(mc);
+    ScribbleStack(0, true);
+    have_materials = Materialise(p, repo, &m);
+    AllocEnd(false);
+  }
   if (!have_materials) {
     log.U64(0xdead);
     return log.Digest();
@@ -963,6 +1057,41 @@ uint64_t RunPlan(const EnvPlan &p, const std::string &repo,
       Op fop = op;
       fop.append = 0;
       fop.buf = 0;
+      if (op.kind == OP_EXPERT_ENCODE && model.exp_geom[op.obj] < 0) continue;
+      // With process isolation everything from here to the end of the op runs
+      // in a child; only the result travels back.
+      int ref_fd[2] = {-1, -1};
+      pid_t ref_pid = -1;
+      if (cold_refs) {
+        if (pipe(ref_fd) != 0) abort();
+        fflush(nullptr);
+        ref_pid = fork();
+        if (ref_pid == 0) {
+          prctl(PR_SET_PDEATHSIG, SIGKILL);
+          close(ref_fd[0]);
+        } else {
+          close(ref_fd[1]);
+          std::string blob;
+          EnvReadAll(ref_fd[0], &blob);
+          close(ref_fd[0]);
+          int status = 0;
+          waitpid(ref_pid, &status, 0);
+          if (!WIFEXITED(status) || WEXITSTATUS(status) != 0 ||
+              blob.size() != sizeof(OpResult))
+            EnvDieLike(status);
+          memcpy(&ref[k], blob.data(), sizeof(OpResult));
+          if (op.kind == OP_BAD_ENCODE)
+            model.enc_opts[op.obj].push_back(
+                BadOptions(p.geoms[op.geom % p.geoms.size()]));
+          ++*n_calls;
+          if (ref[k].abandoned) {
+            log.U64(0xaba);
+            *abandoned = true;
+            return log.Digest();
+          }
+          continue;
+        }
+      }
       if (op.kind == OP_ENCODE || op.kind == OP_BAD_ENCODE) {
         for (const Workload &w : model.enc_opts[op.obj])
           ApplyOptions(w, fresh.enc[op.obj].get());
@@ -972,7 +1101,6 @@ uint64_t RunPlan(const EnvPlan &p, const std::string &repo,
           model.enc_opts[op.obj].push_back(bad);
         }
       } else if (op.kind == OP_EXPERT_ENCODE) {
-        if (model.exp_geom[op.obj] < 0) continue;
         Op mk;
         mk.kind = OP_EXPERT_NEW;
         mk.obj = op.obj;
@@ -999,6 +1127,12 @@ uint64_t RunPlan(const EnvPlan &p, const std::string &repo,
       // stream: trailing bytes must not matter.
       if (fop.trail) fop.trail = 0;
       ExecOpInEnv(p, m, fop, &fresh, e0, k, &ref[k]);
+      if (cold_refs) {
+        // (child) hand the result to the plan process and leave without
+        // running any destructor.
+        EnvWriteAll(ref_fd[1], &ref[k], sizeof(OpResult));
+        _exit(0);
+      }
       ++*n_calls;
       if (ref[k].abandoned) {
         // |fresh| holds objects in an unknown state: never destroy them.
